@@ -89,6 +89,7 @@ def run(ck, fb):
     r02i(ck, fb, 'R01g')
     r02h(ck, fb, 'R01h')
     r01l(ck, fb)
+    r01m(ck, fb)
     ck.borrow('rules.c08', {'R08h': 'R01k'}, 'the start-up restore loads the catalogued snapshot whatever the last-applied index says')
     ck.borrow('rules.c19', {'R19a': 'R01i', 'R19b': 'R01j'}, 'issued sequence counters are part of the state a restart must reproduce: replay folds every high-water mark, the snapshot stores the reserved end')
 
@@ -561,3 +562,46 @@ def r01l(ck, fb):
                    'a namespace record is written to the snapshot without the test flag & USER != 0: namespaces that only exist as weak references '
                    '(or that the user deleted while still referenced) are stored and reloaded as user-created')
     ck.floor('R01l', 'per-entry namespace records', n, 1)
+
+
+def r01m(ck, fb):
+    ck.rule('R01m', 'a marker record is not data: NamespaceActor::build_snapshot stores its "old data already synced" mark as a namespace record with '
+                    'the reserved id ALREADY_SYNC_FROM_CONFIG_KEY; on the load path (set_namespace) the branch that recognises that id sets the '
+                    'flag and does not reach the insert into `data` / `id_order_list`. Otherwise a namespace "__already_sync" is served after every '
+                    'compaction + restart that was never served before')
+    b = ck.body('rnacos::namespace::NamespaceActor::set_namespace', 'R01m')
+    if not b:
+        return
+    marker_edges = []
+    for (src, dst, lab, term) in cfg.switch_edges(b):
+        d = cfg.describe_operand(b, term['discr'])
+        neg = False
+        while d['k'] == 'un' and d['op'] == 'Not':
+            neg = not neg
+            d = cfg.describe_operand(b, d['a'])
+        if d['k'] != 'call' or not re.search(r'::(eq|ne)$', cfg.callee_name(d['term']) or ''):
+            continue
+        strs = []
+        for a in d['term'].get('args') or []:
+            da = cfg.strip_calls(b, cfg.describe_operand(b, a))
+            if da['k'] == 'const' and 's' in da['c']:
+                strs.append(da['c']['s'])
+        if '__already_sync' not in strs:
+            continue
+        pol = cfg.edge_polarity(term, lab)
+        if neg:
+            pol = not pol
+        if (cfg.callee_name(d['term']) or '').endswith('::ne'):
+            pol = not pol
+        if pol is True:
+            marker_edges.append(dst)
+    if not ck.require(len(marker_edges) >= 1, 'R01m', 'set_namespace:recognises-marker', b.where(), 'the reserved marker id is not recognised on the load path'):
+        return
+    ins = util.mut_calls_on_field(b, 'data', r'HashMap::<K, V, S, A>::insert$') + util.mut_calls_on_field(b, 'id_order_list', r'Vec::<T, A>::push$')
+    ck.floor('R01m', 'namespace store sites in set_namespace', len(ins), 1)
+    # blocks reachable only through the marker branch... the marker branch must not flow into a store site
+    reach = cfg.reach_from(b, marker_edges)
+    hit = [s0 for s0 in ins if s0.bb in reach]
+    ck.require(not hit, 'R01m', 'set_namespace:marker-is-not-stored', hit[0].where() if hit else b.where(),
+               'after recognising the marker id set_namespace goes on to store it as a namespace: the mark written by build_snapshot comes back as a '
+               'listed namespace "__already_sync" after a restart')
